@@ -14,9 +14,10 @@ const VARIANTS: [(&str, &str); 4] = [
 ];
 
 fn build(name: &str, features: &str) -> Result<String, String> {
-    let target = format!("/verif/target/feat-{name}");
+    let root = crate::common::verif_dir();
+    let target = format!("{root}/target/feat-{name}");
     let mut cmd = Command::new("cargo");
-    cmd.current_dir("/verif/harness-digest")
+    cmd.current_dir(format!("{root}/harness-digest"))
         .env("CARGO_NET_OFFLINE", "true")
         .env("RUSTFLAGS", "--cfg flacenc_verif")
         .args(["build", "--offline", "--release", "--no-default-features", "--target-dir", &target]);
